@@ -181,6 +181,11 @@ def run_case(case):
                 elif kind == "recreate":
                     dead.extend(own)
                     ds.delete_bucket(A)
+                    if op.get("chk"):  # sometimes another bucket is created before A comes back (row ids get re-issued)
+                        extra = f"extra{step}"
+                        stores.create_bucket(ds, extra)
+                        names.append(extra)
+                        before[extra] = (stores.norm_meta(ds[extra].metadata()), [])
                     stores.create_bucket(ds, A)
             except Exception as ex:  # rejected: fine, provided the frame holds
                 flags["rejected"] += 1
